@@ -660,12 +660,66 @@ let gen seed count profile len =
     Printf.printf "g%d_%d|A|%s\n" seed i (gen_history ~profile ~len)
   done
 
+
+(* ---------------------------------------------------------------- shapes *)
+(* Exhaustive small scope over GRAPH SHAPES (the bfs mode is exhaustive over
+   short histories, hence tiny graphs): every fully recorded adoption graph on
+   [n] objects with at most [maxe] distinct edges (self edges included, one edge
+   optionally doubled), Weak handles to the first three objects, and then the
+   outside handles dropped in [orders] different orders; in variant B the first
+   object dropped has a second outside handle, so the first drop is a non-final
+   one on an object that stays held. *)
+let shapes n maxe orders =
+  let pairs = List.concat (List.init n (fun i -> List.init n (fun j -> (i, j)))) in
+  let rec combos k l = if k = 0 then [[]] else match l with
+    | [] -> []
+    | x :: t -> List.map (fun c -> x :: c) (combos (k - 1) t) @ combos k t in
+  let perms =
+    let rec ins x = function [] -> [[x]] | y :: t as l -> (x :: l) :: List.map (fun r -> y :: r) (ins x t) in
+    let rec all = function [] -> [[]] | x :: t -> List.concat_map (ins x) (all t) in
+    all (List.init n (fun i -> i)) in
+  let perms = List.filteri (fun i _ -> i < orders) (
+      (* rotations first, then the rest *)
+      let rot k = List.init n (fun i -> (i + k) mod n) in
+      let rots = List.init n rot in
+      rots @ List.filter (fun p -> not (List.mem p rots)) perms) in
+  let count = ref 0 in
+  let emit edges =
+    let outdeg = Array.make n 0 in
+    List.iter (fun (i, _) -> outdeg.(i) <- outdeg.(i) + 1) edges;
+    if Array.for_all (fun d -> d <= 4) outdeg then begin
+      let build = Buffer.create 256 in
+      for i = 0 to n - 1 do Buffer.add_string build (Printf.sprintf "new %d;" i) done;
+      let used = Array.make n 0 in
+      List.iter (fun (i, j) ->
+          let k = used.(i) in used.(i) <- k + 1;
+          Buffer.add_string build (Printf.sprintf "clone r%d 7;adopt r%d r7;store 7 r%d %d;" j i i k)) edges;
+      for i = 0 to (min n 3) - 1 do Buffer.add_string build (Printf.sprintf "down r%d %d;" i (4 + i)) done;
+      List.iteri (fun oi order ->
+          List.iter (fun variant ->
+              incr count;
+              let b = Buffer.create 256 in
+              Buffer.add_buffer b build;
+              (if variant = 1 then Buffer.add_string b (Printf.sprintf "clone r%d 7;" (List.hd order)));
+              List.iter (fun i -> if i < 4 then Buffer.add_string b (Printf.sprintf "drop %d;" i)) order;
+              (if variant = 1 then Buffer.add_string b "drop 7;");
+              for i = 0 to (min n 3) - 1 do Buffer.add_string b (Printf.sprintf "drop %d;" (4 + i)) done;
+              Printf.printf "s%d_%d_%d|A|%s\n" !count oi variant (Buffer.contents b)) [0; 1]) perms
+    end in
+  for k = 0 to maxe do
+    List.iter (fun c ->
+        emit c;
+        (* one edge doubled *)
+        if k < maxe then List.iter (fun e -> emit (c @ [e])) c) (combos k pairs)
+  done
+
 let () =
   match Array.to_list Sys.argv with
   | [_; "run"] -> run_all ()
   | [_; "inv"] -> run_inv ()
   | [_; "bfs"; d; nobj; nreg; nslot; profile] ->
       bfs (int_of_string d) (int_of_string nobj) (int_of_string nreg) (int_of_string nslot) profile
+  | [_; "shapes"; n; maxe; orders] -> shapes (int_of_string n) (int_of_string maxe) (int_of_string orders)
   | [_; "gen"; seed; count; profile; len] ->
       gen (int_of_string seed) (int_of_string count) profile (int_of_string len)
   | _ -> prerr_endline "usage: driver run | driver bfs <depth> <nobj> <nreg> <nslot> <profile>"; exit 2
